@@ -95,8 +95,10 @@ class Sequence(AbstractSequence):
 
         if self.parent is not None and self.parent.location is not None:
             if isinstance(key, slice):
-                rel_start = key.start
-                rel_end = key.stop
+                if key.step not in (None, 1):
+                    raise ValueError("Cannot slice a Sequence that has a location on its parent with a step")
+                rel_start = 0 if key.start is None else key.start
+                rel_end = len(self) if key.stop is None else key.stop
             else:
                 rel_start = key
                 rel_end = key + 1
